@@ -83,6 +83,11 @@ FAMILIES = {
     # two securities, a split of either at every position: one security's split never touches the other
     'two_split_q': dict(cfg=dict(secs='SecSeqAB', dayset=7, buy=(0, 2), sell=(0, 1), splits=(1,), maxsplits=1, timings=BOTH),
                         variants='orders', bases=1),
+    # five day slots, one split at every position, at most four non-empty cells (room for sale / repurchase / second sale)
+    'split5_q': dict(cfg=dict(dayset=1, splits=(1, 3), maxsplits=1, maxcells=4, timings=BOTH), variants='none', bases=1),
+    # cost events and splits together
+    'events_split_q': dict(cfg=dict(dayset=3, buy=(0, 1, 2), sell=(0, 1), events=(1, 2), maxevents=1, grid=2,
+                                    splits=(1,), maxsplits=1, maxcells=4, timings=BOTH), variants='none', bases=1, obs=True),
     'two_t': dict(cfg=dict(secs='SecSeqAB', dayset=5, buy=(0, 1, 2), sell=(0, 1), maxcells=3), variants='orders', bases=1),
 }
 
@@ -198,7 +203,7 @@ def fam_list(tier, quick, thorough):
 # Cgt run on a ledger and on its transform) and then demanded of the implementation, run against run.
 
 def law_cfg(law, secs='SecSeqA', dayset=3, buy=(0, 1, 2), sell=(0, 1, 2), splits=(1, 2, 3, 4), timings=('"end"',),
-            prefix=2, maxcells=0):
+            prefix=2, maxcells=0, events=()):
     return f'''SPECIFICATION Spec
 CONSTANTS
   SecSeq <- {secs}
@@ -211,6 +216,7 @@ CONSTANTS
   SplitKinds = {set_(splits)}
   Timings = {set_(timings)}
   PrefixDays = {prefix}
+  EventKinds = {set_(events)}
   MaxCells = {maxcells}
 INVARIANTS LawHolds EmitPair
 CHECK_DEADLOCK FALSE
@@ -221,6 +227,8 @@ LAW_FAMILIES = {
     'rescale_q': dict(law='rescale', dayset=3, sell=(0, 1), splits=(1, 3), timings=BOTH),
     'rescale_t': dict(law='rescale', dayset=3, timings=BOTH),
     'rescale5_t': dict(law='rescale', dayset=1, splits=(1, 2, 4), maxcells=5, timings=BOTH),
+    'rescale_two_q': dict(law='rescale', secs='SecSeqAB', dayset=7, buy=(0, 2), sell=(0, 1), splits=(1, 3), timings=BOTH),
+    'extend_events_q': dict(law='extend', dayset=9, buy=(0, 1, 2), sell=(0, 1), splits=(1,), prefix=3, events=(1, 2, 3), maxcells=4),
     'unsplit_q': dict(law='unsplit', dayset=1, splits=(1, 2), maxcells=4),
     'unsplit_t': dict(law='unsplit', dayset=8, splits=(1, 2, 4), maxcells=4),
     'extend_q': dict(law='extend', dayset=9, sell=(0, 1), splits=(1,), prefix=3),
